@@ -27,7 +27,6 @@ Require Import PV.Num PV.Run PV.Asympt PV.AsymptRun.
 Import ListNotations.
 Definition idq (x : Qc) := x.
 Definition miss := mkq (-1) 1.
-Definition out4 {A B C : Type} (r : A * A * B * C) := let '(a, b, c, d) := r in ([a; b], c, d).
 '''
 
 
@@ -274,8 +273,34 @@ def sqrt_tab(c):
 
 def case_expr(c, phi):
     st = sqrt_tab(c)
-    return '(sqrt_tab_ok (mkq 1 1125899906842624) %s, out4 (run_all %s %s (sqrt_model %s) %s %s %s))' % (
+    return '(sqrt_tab_ok (mkq 1 1125899906842624) %s, run_one %s %s (sqrt_model %s) %s %s %s)' % (
         st, KCOQ[c['kind']], BCOQ[c['base']], st, phi, core.q(c['q']), core.q(c['qA']))
+
+
+def band_key(c):
+    return (c['base'], c['qA'])
+
+
+def band_expr(key, phi):
+    base, qA = key
+    st = sqrt_tab(dict(q=0.0, qA=qA))
+    return '(sqrt_tab_ok (mkq 1 1125899906842624) %s, run_band %s (sqrt_model %s) %s %s)' % (st, BCOQ[base], st, phi, core.q(qA))
+
+
+def balanced_eval(ctx, name, exprs, per=6):
+    """coq_eval with the expressions dealt round-robin over <= NCPU shards (expensive far-tail cases are neighbours in the list)"""
+    n = len(exprs)
+    if n == 0:
+        return []
+    nsh = max(1, min(core.NCPU, (n + per - 1) // per))
+    order = sorted(range(n), key=lambda i: (i % nsh, i))
+    shard = (n + nsh - 1) // nsh
+    # make every shard exactly `shard` long except the last ones: pad by ordering only
+    res = core.coq_eval(ctx, name, HEADER, [exprs[i] for i in order], shard=shard)
+    out = [None] * n
+    for i, r in zip(order, res):
+        out[i] = r
+    return out
 
 
 def dist_expr(d, phi):
@@ -293,12 +318,18 @@ def oqv(v):
 
 def decode_case(res):
     v = core.parse_qc(res)
-    ok, (tsA, obs, exp) = v[0], v[1]
+    ok, (tsA, obs) = v[0], v[1]
     assert ok in ('true', 'false')
     ts, sA = core.to_frac(tsA[0]), core.to_frac(tsA[1])
-    assert obs[0] == 'inr' and exp[0] == 'inr', (obs, exp)
-    return dict(sqrt_ok=(ok == 'true'), teststat=ts, sqrtqmuA=sA, pvalues=[oqv(x) for x in obs[1]],
-                expected=[[oqv(x) for x in band] for band in exp[1]])
+    assert obs[0] == 'inr', obs
+    return dict(sqrt_ok=(ok == 'true'), teststat=ts, sqrtqmuA=sA, pvalues=[oqv(x) for x in obs[1]])
+
+
+def decode_band(res):
+    v = core.parse_qc(res)
+    ok, exp = v[0], v[1]
+    assert ok in ('true', 'false') and exp[0] == 'inr', v
+    return dict(sqrt_ok=(ok == 'true'), expected=[[oqv(x) for x in band] for band in exp[1]])
 
 
 def decode_dist(res):
@@ -487,74 +518,78 @@ def run(ctx):
     ctx.assumptions += ['IEEE rounding is covered by the comparison tolerance (1e-9 relative on p-values); nan/overflow are not modelled '
                         'beyond nan = value below the cutoff', 'tails beyond 37 sigma are excluded, as in the property statement']
 
-    cases = gen_cases(rng, ctx.n(14, 120), load_corpus())
+    cases = gen_cases(rng, ctx.n(8, 120), load_corpus())
     dists = gen_dists(rng, ctx.n(40, 400))
     backends = backends_for(ctx)
-    ctx.log('%d calculator cases, %d distribution cases, backends %s' % (len(cases), len(dists), backends))
+    bkeys = list(dict.fromkeys(band_key(c) for c in cases if c['representable']))
+    ctx.log('%d calculator cases (%d distinct expected bands), %d distribution cases, backends %s' % (len(cases), len(bkeys), len(dists), backends))
 
     # ---- pass 1: the model with Phi := identity gives the arguments the cdf must receive ----
-    margs = mdargs = None
-    try:
-        res = core.coq_eval(ctx, 'args', HEADER, [case_expr(c, 'idq') for c in cases], shard=120)
-        margs = [decode_case(r) for r in res]
-        res = core.coq_eval(ctx, 'dargs', HEADER, [dist_expr(d, 'idq') for d in dists], shard=200)
-        mdargs = [decode_dist(r) for r in res]
-    except (core.CoqEvalError, AssertionError) as e:
-        tie = tie or ('model evaluation failed: %s' % str(e)[-800:])
+    margs = mbands = mdargs = None
+    if tie is None:
+        try:
+            e1, e2, e3 = [case_expr(c, 'idq') for c in cases], [band_expr(k, 'idq') for k in bkeys], [dist_expr(d, 'idq') for d in dists]
+            res = balanced_eval(ctx, 'args', e1 + e2 + e3, per=60)
+            margs = [decode_case(r) for r in res[:len(e1)]]
+            mbands = dict(zip(bkeys, [decode_band(r) for r in res[len(e1):len(e1) + len(e2)]]))
+            mdargs = [decode_dist(r) for r in res[len(e1) + len(e2):]]
+        except (core.CoqEvalError, AssertionError) as e:
+            margs = None
+            tie = tie or ('model evaluation failed: %s' % str(e)[-800:])
     if margs is not None:
-        bad_sqrt = [c for c, m in zip(cases, margs) if not m['sqrt_ok']]
+        bad_sqrt = [c for c, m in zip(cases, margs) if not m['sqrt_ok']] + [k for k in bkeys if not mbands[k]['sqrt_ok']]
         if bad_sqrt:
-            raise RuntimeError('sqrt oracle entry rejected by Coq for %r' % bad_sqrt[0])
+            raise RuntimeError('sqrt oracle entry rejected by Coq for %r' % (bad_sqrt[0],))
+    ctx.log('arguments computed by the model')
 
     failures = {}        # (group, kind, branch) -> list of (case, backend, name, impl, expected, concrete?)
     inv_fail = {}
     stats = dict(regimes={}, kinds={}, bases={}, branches={}, unrepresentable_skipped=0, arg_lists_compared=0,
-                 arg_lists_identical=0, observables_compared=0, far_tail_cases=0, stub_unreached=0)
+                 arg_lists_identical=0, observables_compared=0, far_tail_cases=0, stub_unreached=0, cases_per_backend={})
     sigs = set()
     evaluations = 0
     samples = []
     err_results = {}
-    for be in backends:
+    for bi, be in enumerate(backends):
+        # quick: the second backend sees every third (q, qA) pair
+        pairs = list(dict.fromkeys((c['q'], c['qA']) for c in cases))
+        keep = set(pairs) if (bi == 0 or not ctx.quick) else set(pairs[(ctx.seed + bi) % 3::3])
+        sel = [i for i, c in enumerate(cases) if c['representable'] and (c['q'], c['qA']) in keep]
+        stats['unrepresentable_skipped'] = sum(1 for c in cases if not c['representable'])
+        stats['cases_per_backend'][be] = len(sel)
+        outs = {}
+        models = mb2 = dmodels = None
         with Impl(be) as impl:
-            outs = []
-            for c in cases:
-                if not c['representable']:
-                    outs.append(None)
-                    continue
+            for i in sel:
                 try:
-                    outs.append(impl.run_case(c))
+                    outs[i] = impl.run_case(cases[i])
                 except Exception as e:       # an exception on a valid input is itself an observable
-                    outs.append(dict(exception=core.exc_enum(e), msg=str(e)[:200]))
+                    outs[i] = dict(exception=core.exc_enum(e), msg=str(e)[:200])
             douts = [impl.run_dist(d) for d in dists]
             err_results[be] = impl.run_errors()
+            ctx.log('%s: %d implementation runs done' % (be, len(sel)))
             # ---- pass 2: Phi := table of this backend's cdf at the model's arguments ----
-            models = dmodels = None
             if margs is not None:
-                exprs, idx = [], []
-                for i, (c, m) in enumerate(zip(cases, margs)):
-                    if outs[i] is None:
-                        continue
-                    args = m['pvalues'][:2] + m['expected'][0] + m['expected'][1]
-                    exprs.append(case_expr(c, phi_table(args, impl.cdf)))
-                    idx.append(i)
+                exprs = [case_expr(cases[i], phi_table(margs[i]['pvalues'][:2], impl.cdf)) for i in sel]
+                bsel = list(dict.fromkeys(band_key(cases[i]) for i in sel))
+                bexprs = [band_expr(k, phi_table(mbands[k]['expected'][0] + mbands[k]['expected'][1], impl.cdf)) for k in bsel]
                 dexprs = [dist_expr(d, phi_table([m['pvalue'], m['cdf']], impl.cdf)) for d, m in zip(dists, mdargs)]
         if margs is not None:
             try:
-                res = core.coq_eval(ctx, 'vals_' + be, HEADER, exprs, shard=80)
-                models = dict(zip(idx, [decode_case(r) for r in res]))
-                res = core.coq_eval(ctx, 'dvals_' + be, HEADER, dexprs, shard=200)
-                dmodels = [decode_dist(r) for r in res]
+                res = balanced_eval(ctx, 'vals_' + be, exprs + bexprs + dexprs, per=10)
+                models = dict(zip(sel, [decode_case(r) for r in res[:len(exprs)]]))
+                mb2 = dict(zip(bsel, [decode_band(r) for r in res[len(exprs):len(exprs) + len(bexprs)]]))
+                dmodels = [decode_dist(r) for r in res[len(exprs) + len(bexprs):]]
             except (core.CoqEvalError, AssertionError) as e:
+                models = None
                 tie = tie or ('model evaluation failed: %s' % str(e)[-800:])
+        ctx.log('%s: model evaluated' % be)
         # ---- compare ----
-        for i, c in enumerate(cases):
-            out = outs[i]
-            if out is None:
-                stats['unrepresentable_skipped'] += 1
-                continue
+        for i in sel:
+            c, out = cases[i], outs[i]
             evaluations += 1
             br = branch_of(c)
-            if be == backends[0]:
+            if bi == 0:
                 for k, v in (('regimes', c['regime']), ('kinds', c['kind']), ('bases', c['base']), ('branches', br)):
                     stats[k][v] = stats[k].get(v, 0) + 1
                 if c['q'] > 0:
@@ -569,20 +604,17 @@ def run(ctx):
             ref = mp_reference(c)
             ref_obs = expected_observables(c, ref['pvalues'], ref['expected'])
             got = observables(c, out)
+            exp_obs = None
             if models is not None:
-                m = models[i]
-                exp_obs = expected_observables(c, m['pvalues'], m['expected'])
+                exp_obs = expected_observables(c, models[i]['pvalues'], mb2[band_key(c)]['expected'])
                 # diagnostics: arguments handed to the cdf
-                a1 = margs[i]
-                want = sorted(a1['pvalues'][:2])
                 scale = max(1, math.sqrt(c['q']), math.sqrt(c['qA']))
-                for wantl, gotl in ((sorted(a1['pvalues'][:2]), out['args_obs']), (sorted(a1['expected'][0] + a1['expected'][1]), out['args_exp'])):
+                mbk = mbands[band_key(c)]['expected']
+                for wantl, gotl in ((sorted(margs[i]['pvalues'][:2]), out['args_obs']), (sorted(mbk[0] + mbk[1]), out['args_exp'])):
                     stats['arg_lists_compared'] += 1
                     gl = sorted([g for g in gotl if isinstance(g, float)])
                     if len(gl) == len(wantl) == len(gotl) and all(arg_same(w, g, scale) for w, g in zip(wantl, gl)):
                         stats['arg_lists_identical'] += 1
-            else:
-                exp_obs = None
             for name in sorted(set(got) | set(ref_obs)):
                 g = got.get(name, 'missing')
                 stats['observables_compared'] += 1
@@ -600,8 +632,9 @@ def run(ctx):
                                     model_args=[str(x) for x in (margs[i]['pvalues'][:2] if margs else [])]))
         # clipped leaves everything else unchanged: compare the two bases of the same (kind, q, qA) as returned by pyhf
         byk = {}
-        for i, c in enumerate(cases):
-            if outs[i] is not None and 'exception' not in outs[i]:
+        for i in sel:
+            if 'exception' not in outs[i]:
+                c = cases[i]
                 byk.setdefault((c['kind'], c['q'], c['qA']), {})[c['base']] = (c, outs[i])
         for key, dct in byk.items():
             if len(dct) == 2:
@@ -618,6 +651,7 @@ def run(ctx):
         # distribution objects used directly
         for j, (d, o) in enumerate(zip(dists, douts)):
             evaluations += 1
+            sigs.add(('dist', d['shift'], d['cutoff'], d['v'], d['n']))
             if dmodels is None:
                 continue
             m = dmodels[j]
@@ -626,7 +660,7 @@ def run(ctx):
                 if not same(m[name], o[name], RTOL if name != 'expected_value' else 1e-15):
                     failures.setdefault(('dist.' + name, 'direct', '-'), []).append(
                         (dict(d, kind='direct', base='-', q=0.0, qA=0.0, regime='dist'), be, name, o[name], m[name], True))
-            sigs.add(('dist', d['shift'], d['cutoff'], d['v'], d['n']))
+        ctx.log('%s: compared' % be)
     # error behaviour (RuntimeError before teststatistic, ValueError for an unknown base distribution)
     for be, er in err_results.items():
         if er.get('before_teststat') != 'PyRuntimeError':
